@@ -67,15 +67,21 @@ theorem eraseTs_processCommit (c : Cl) (e : Ev) (b : Body) (sw : List Nat) :
     eraseTs (processCommit (eraseTs c) e b sw).1 = eraseTs (processCommit c e b sw).1 ∧
     (processCommit (eraseTs c) e b sw).2 = (processCommit c e b sw).2 := by
   unfold processCommit
-  simp only [eraseTs_g, eraseTs_maxPast]
+  simp only [eraseTs_g, eraseTs_maxPast, eraseTs_id]
   by_cases hc : (!(isAdmin c.g e.sender || isPureSelfUpdate b sw)) = true
   · simp only [hc, if_true]
     exact ⟨by rw [eraseTs_recordFailure, eraseTs_idem], trivial⟩
   · simp only [hc, Bool.false_eq_true, if_false]
-    refine ⟨?_, trivial⟩
     have := eraseTs_mgrCreate c (epochOf c.g.path) e
-    simp only [mgrCreate, eraseTs, setRec, Cl.mk.injEq] at this ⊢
-    simp_all
+    by_cases hm : removesMe c.id b sw = true
+    · simp only [hm, if_true]
+      refine ⟨?_, trivial⟩
+      simp only [mgrCreate, eraseTs, setRec, Cl.mk.injEq] at this ⊢
+      simp_all
+    · simp only [hm, Bool.false_eq_true, if_false]
+      refine ⟨?_, trivial⟩
+      simp only [mgrCreate, eraseTs, setRec, Cl.mk.injEq] at this ⊢
+      simp_all
 
 theorem eraseTs_wrongEpoch (retry retry' : Cl → Option (Cl × Res)) (c : Cl) (e : Ev) (ee : Nat)
     (hnb : isBetter c ee e = false) :
